@@ -377,6 +377,25 @@ fn run(ctx: &mut Ctx) {
             }
         }
     }
+    // level 2b: both operands compound, e.g. (1 + 2) * (3 X - 6 X): over the 4 x 4 x 4 one-operator trees of plain leaves
+    let simple: Vec<Rc<T>> = [T::Leaf("1", ""), T::Leaf("2", ""), T::Leaf("3", "X"), T::Leaf("6", "X")].into_iter().map(Rc::new).collect();
+    let mut l1s: Vec<Rc<T>> = vec![];
+    for a in &simple {
+        for b in &simple {
+            for op in ops {
+                l1s.push(Rc::new(T::Bin(op, a.clone(), b.clone())));
+            }
+        }
+    }
+    let mut l2b: Vec<Rc<T>> = vec![];
+    for a in &l1s {
+        for b in &l1s {
+            for op in ops {
+                l2b.push(Rc::new(T::Bin(op, a.clone(), b.clone())));
+            }
+        }
+    }
+    ctx.fact("trees_3_ops_both_operands_compound", l2b.len() as u64);
     ctx.fact("trees_le_1_op", (l0.len() + l1n.len()) as u64);
     ctx.fact("trees_2_ops", l2.len() as u64);
     let contexts = [Cx::Eval, Cx::Posting, Cx::Cost, Cx::Lot, Cx::Assign, Cx::Assert];
@@ -410,6 +429,10 @@ fn run(ctx: &mut Ctx) {
             },
         );
     };
+    for t in &l2b {
+        emit(ctx, Cx::Eval, Spelling::Minimal, t);
+        emit(ctx, Cx::Posting, Spelling::Minimal, t);
+    }
     for cx in contexts {
         for t in l0.iter().chain(l1n.iter()) {
             emit(ctx, cx, Spelling::Minimal, t);
@@ -504,6 +527,135 @@ fn run(ctx: &mut Ctx) {
                         },
                     );
                 }
+            }
+        }
+    }
+    // history independence: an expression that is refused (too deep, too long, ill-typed, malformed) must leave nothing
+    // behind. After each "poison" the same small expression is evaluated 1 500 times on the same thread, through
+    // Ledger::eval and as 1 500 postings of one ledger; every evaluation must give exactly 7 X.
+    {
+        let poisons: Vec<(&str, String)> = vec![
+            ("none", String::new()),
+            ("300-nested-parentheses", format!("{}1 X{}", "(".repeat(300), ")".repeat(300))),
+            ("257-nested-parentheses", format!("{}1 X{}", "(".repeat(257), ")".repeat(257))),
+            ("chain-of-1500-operators", format!("(1 X{})", " + 1 X".repeat(1500))),
+            ("chain-of-1001-operators", format!("(1 X{})", " + 1 X".repeat(1001))),
+            ("division-by-zero", "(1 X / 0)".to_string()),
+            ("number-plus-amount", "(1 X + 1)".to_string()),
+            ("unclosed-parenthesis", "(1 X + ".to_string()),
+            ("stray-closing-parenthesis", "1 X)".to_string()),
+            ("nested-then-long", format!("{}1 X{} ", "(".repeat(300), ")".repeat(300))),
+        ];
+        for (pname, poison) in &poisons {
+            for twice in [false, true] {
+                for via_postings in [false, true] {
+                    if !ctx.next_is_mine() {
+                        ctx.skip_cases(1);
+                        continue;
+                    }
+                    ctx.case(
+                        || format!("history: {}{} refused expression(s) [{}], then (1 X + 2 X * 3) x 1500 {}", if twice { "two" } else { "one" }, "", pname, if via_postings { "as postings of one ledger" } else { "through Ledger::eval" }),
+                        || {
+                            let want = Q::int(7);
+                            if via_postings {
+                                // the poison goes through the parser first (a rejected text leaves the thread), then the ledger
+                                for _ in 0..(if twice { 2 } else { 1 }) {
+                                    if !poison.is_empty() {
+                                        let _ = oka::process_text(&format!("{}2024/01/01 t\n  A  {}\n  B\n", PRELUDE, poison));
+                                    }
+                                }
+                                let mut text = String::from(PRELUDE);
+                                text.push_str("2024/01/02 many\n");
+                                for _ in 0..1500 {
+                                    text.push_str("  A  (1 X + 2 X * 3)\n");
+                                }
+                                text.push_str("  B\n");
+                                return match oka::process_text(&text) {
+                                    Err(e) => Outcome::violation(format!("history/ledger-rejected-after/{}", pname), format!("a ledger of 1500 postings `(1 X + 2 X * 3)` was rejected ({}) after the refused expression", e.variant)),
+                                    Ok((_, txns)) => {
+                                        let t = txns.last().unwrap();
+                                        if t.postings[..1500].iter().all(|p| p.amount.get("X") == Some(&want)) {
+                                            Outcome::pass("history/postings/all-equal")
+                                        } else {
+                                            Outcome::violation(format!("history/posting-value-differs-after/{}", pname), "some posting is not 7 X")
+                                        }
+                                    }
+                                };
+                            }
+                            oka::with_ledger(&[(oka::ROOT, PRELUDE)], oka::ROOT, None, |r| {
+                                let (l, c) = r.expect("prelude must load");
+                                let ec = EvalContext { date: oka::date(2024, 1, 1), exchange: None };
+                                for _ in 0..(if twice { 2 } else { 1 }) {
+                                    if !poison.is_empty() {
+                                        let _ = l.eval(c, poison, &ec);
+                                    }
+                                }
+                                for i in 0..1500 {
+                                    match l.eval(c, "(1 X + 2 X * 3)", &ec) {
+                                        Ok(a) => {
+                                            if oka::amount_to_qmap(&a).get("X") != Some(&want) {
+                                                return Outcome::violation(format!("history/eval-value-differs-after/{}", pname), format!("evaluation {} gave {}", i + 1, a.as_inline_display()));
+                                            }
+                                        }
+                                        Err(e) => return Outcome::violation(format!("history/eval-rejected-after/{}", pname), format!("evaluation {} of (1 X + 2 X * 3) failed: {:?}", i + 1, e)),
+                                    }
+                                }
+                                Outcome::pass("history/eval/all-equal")
+                            })
+                        },
+                    );
+                }
+            }
+        }
+    }
+    // the command line: `okane primitive eval <expr>` joins its arguments and evaluates them as one expression
+    {
+        let epath = oka::scratch_dir("c08").join(format!("eval-{}.ledger", ctx.shard));
+        for t in l0.iter().chain(l1n.iter()).chain(l2.iter().step_by(ctx.tier.pick(7, 1))).chain(l2b.iter().step_by(ctx.tier.pick(3, 1))) {
+            for sp in [Spelling::Minimal, Spelling::Full] {
+                if !ctx.next_is_mine() {
+                    ctx.skip_cases(1);
+                    continue;
+                }
+                let exp = ev(t);
+                let text = show(t, 0, false, sp);
+                ctx.case(
+                    || format!("$ okane primitive eval --date 2024-01-01 -f <prelude> -- '{}'", text),
+                    || {
+                        std::fs::write(&epath, PRELUDE).expect("write prelude");
+                        let args: Vec<String> = ["okane", "primitive", "eval", "--date", "2024-01-01", "-f", &epath.to_string_lossy(), "--", &text].iter().map(|x| x.to_string()).collect();
+                        let out = super::c13::run_cli(&args);
+                        let ok = out.starts_with("EXIT 0");
+                        match &exp {
+                            R::DontCare(w) => Outcome::dont_care(format!("cli-eval/dontcare/{}", w)),
+                            R::Val(V::Num(_)) => Outcome::dont_care("cli-eval/dontcare/bare-number-result"),
+                            R::Reject(w) => {
+                                if ok {
+                                    Outcome::violation(format!("cli-eval/ill-typed-accepted/{}", w), out)
+                                } else {
+                                    Outcome::pass(format!("cli-eval/rejected/{}", w))
+                                }
+                            }
+                            R::Val(V::Amt(m)) => {
+                                if !ok {
+                                    return Outcome::violation("cli-eval/well-typed-rejected", format!("{} should be {} but:\n{}", text, decmap(m), out));
+                                }
+                                let line = out.lines().nth(1).unwrap_or("").trim();
+                                match super::bk::parse_inline_amount(line) {
+                                    Some(g) => {
+                                        let gd: std::collections::BTreeMap<String, rust_decimal::Decimal> = g.iter().filter_map(|(c, v)| v.decimal_scale().map(|_| (c.clone(), to_dec(*v)))).collect();
+                                        if same(m, &gd, has_div(t)) {
+                                            Outcome::pass("cli-eval/value-ok")
+                                        } else {
+                                            Outcome::violation("cli-eval/value-differs", format!("{} should be {} but printed {}", text, decmap(m), line))
+                                        }
+                                    }
+                                    None => Outcome::violation("cli-eval/unreadable-output", out),
+                                }
+                            }
+                        }
+                    },
+                );
             }
         }
     }
